@@ -82,7 +82,8 @@ pub fn build_seeds(seed: u64) -> Vec<Seed> {
         }
     }
     // independently encoded databases, one per encoder option plus random ones
-    let forced = crate::props::c02::FORCED;
+    let mut forced: Vec<&'static str> = crate::props::c02::FORCED.to_vec();
+    forced.push("40-columns");
     for (i, f) in forced.iter().enumerate() {
         let mut rng = Rng::derive(seed, 92, i as u64);
         let db = gen_absdb(&mut rng, 900 + i as u64, &AbsCfg { max_tables: 3, max_cols: 5, max_rows: 8 }, if *f == "plain" { None } else { Some(f) });
@@ -725,6 +726,14 @@ fn exercise_open(pkg: &mut msi::Package<Cursor<Vec<u8>>>, case: u64, stats: &mut
             let _ = pkg.update_rows(msi::Update::table(t.clone()).set(target.0.clone(), newv.clone()).with(msi::Expr::col(c0.clone()).ne(msi::Expr::null())));
         })
         .map_err(|p| g(format!("update_rows on {:?}", t), p))?;
+        stats.calls += 1;
+        // the same for the LAST column
+        let last = cols[cols.len() - 1].clone();
+        let lastv = if last.1 { msi::Value::from(format!("last{}", case)) } else { msi::Value::Int(3) };
+        guarded(|| {
+            let _ = pkg.update_rows(msi::Update::table(t.clone()).set(last.0.clone(), lastv.clone()).set(target.0.clone(), newv.clone()).set(last.0.clone(), lastv.clone()));
+        })
+        .map_err(|p| g(format!("update_rows (last column) on {:?}", t), p))?;
         stats.calls += 1;
         // insert a row
         let row: Vec<msi::Value> = cols.iter().enumerate().map(|(i, c)| if c.1 { msi::Value::from(format!("ins{}_{}", case, i)) } else { msi::Value::Int(12000 + i as i32) }).collect();
